@@ -270,7 +270,7 @@ def replay_cases(ctx, J, cases, tables, rng, n_chains, tag):
             J.case(c, ra, rb, R)
             if c.get("chain"):
                 ctx.add("register_pressure_chains")
-                if ra.get("compiled") == 0 and c["chain"] <= 9:
+                if ra.get("compiled") == 0 and c["chain"] <= 2:
                     J.note("a short chain was declined", {"n": c["chain"]})
 
 
